@@ -1,5 +1,7 @@
 #!/bin/bash
 # run_vf.sh <finding> [repo] — API-level demonstrations that need the encoder and vorbisfile (whole library, public API only).
+# D12: 5.1-channel encoder set-up allocates the shared LFE residue twice and loses the first block (LeakSanitizer).
+# D29: a chained stream read through a non-seekable source reports one OV_HOLE per link boundary.
 # D28: a chained file with a header-only (zero-sample, no audio page) link in the middle does not open.
 # D24: a sample/page seek repeated after a failed seek in the same link fails with OV_EFAULT.
 # D23: ov_time_tell after a failed seek (position -1) reads vi[-1] (AddressSanitizer).
@@ -7,7 +9,7 @@
 # D21: floor 0 amplitude fields of 31/32 bits (1<<ampbits in int).
 # D20: ov_halfrate() toggled while the decoder is running rebuilds the decoder for the OLD setting. exit 0 = clean, 1 = defect shows.
 F=$1; R=${2:-/repo}; HERE=$(dirname "$(readlink -f "$0")"); T=$(mktemp -d /var/tmp/finding.XXXXXX); trap 'rm -rf $T' EXIT
-case $F in D20) SRC=$HERE/d20_halfrate_toggle.c;; D21) SRC=$HERE/d21_floor0_ampbits.c;; D22) SRC=$HERE/d22_chain_open_leak.c; SAN="-fsanitize=address";; D23) SRC=$HERE/d23_time_tell_unknown_pos.c; SAN="-fsanitize=address";; D24) SRC=$HERE/d24_seek_after_failed_seek.c;; D28) SRC=$HERE/d28_header_only_middle_link.c;; *) echo "unknown finding"; exit 99;; esac
+case $F in D20) SRC=$HERE/d20_halfrate_toggle.c;; D21) SRC=$HERE/d21_floor0_ampbits.c;; D22) SRC=$HERE/d22_chain_open_leak.c; SAN="-fsanitize=address";; D23) SRC=$HERE/d23_time_tell_unknown_pos.c; SAN="-fsanitize=address";; D24) SRC=$HERE/d24_seek_after_failed_seek.c;; D28) SRC=$HERE/d28_header_only_middle_link.c;; D29) SRC=$HERE/d29_streaming_chain_hole.c;; D12) SRC=$HERE/d12_51_setup_leak.c; SAN="-fsanitize=address";; *) echo "unknown finding"; exit 99;; esac
 LIBS=$(ls $R/lib/*.c | grep -v -e psytune.c -e tone.c -e barkmel.c)
 gcc -g -O1 -w $SAN -I$R/include -I$R/lib $SRC $LIBS -o $T/drv -logg -lm || exit 99
 ASAN_OPTIONS=detect_leaks=1:exitcode=1 timeout 120 $T/drv; rc=$?; echo "rc=$rc"; exit $rc
